@@ -17,6 +17,9 @@ Expected(e) ==
       [] e.op = "taproot" ->
             IF TapRefused(tx, idx, e.ht) THEN "refused"
             ELSE ToHex(BIP341(tx, idx, PrevoutsOf(e), e.ht, e.extflag, FromHex(e.annex), FromHex(e.ext)))
+      [] e.op = "from_tx" ->
+            LET d == FromTx(tx, idx, PrevoutsOf(e), WN(e.ht), e.codesep) IN IF d = <<"refused">> THEN "refused" ELSE ToHex(d)
+      [] e.op = "ser" -> ToHex(SerTx(tx, FALSE))
       [] e.op = "tapleaf" -> ToHex(TapExt(TapLeafHash(e.version, FromHex(e.script)), <<255, 255, 255, 255>>))
 
 EventOK == i > 0 => Expected(Trace[i]) = Trace[i].out
